@@ -112,7 +112,7 @@ int main(int argc, char **argv) {
         std::cout << "REPLAY-OK" << std::endl; return 0;
     }
     bool th = thorough();
-    int N = th ? 640 : 160;                       // graphs in total (all shards)
+    int N = th ? 2400 : 160;                       // graphs in total (all shards)
     for (int i = 0; i < N; i++) {
         if ((i % nshards) != shard) continue;
         Rng r(seed * 1000 + i);
